@@ -1545,7 +1545,11 @@ int asn1_time_from_str(int utc_time, time_t *timestamp, const char *str)
 	int i;
 
 	utc_time &= 1;
-	for (i = 0; i < time_str_len[utc_time] - 1; i++) {
+	for (i = 0; i < time_str_len[utc_time] - 1; i++)
+	VERIF_LOOP_ASSIGNS(i)
+	VERIF_LOOP_INVARIANT(0 <= i && i <= time_str_len[utc_time] - 1 && VERIF_DIGITS_BEFORE(str, i))
+	VERIF_LOOP_DECREASES(14 - i)
+	{
 		if (!('0' <= str[i] && str[i] <= '9')) {
 			error_print();
 			return -1;
